@@ -27,6 +27,8 @@ def coq_op(o, bodies):
         return "(OAdvance %s)" % vlib.z(o[1])
     if n == "tracked":
         return "(OTracked %d)" % o[1]
+    if n == "setinsync":
+        return "(OAdvance 0)"      # not an operation of the tracker model: what a block confirms does not depend on it
     raise KeyError(n)
 
 
@@ -83,6 +85,15 @@ def suites(tier, rng, replay):
                     ["advance", 1100], ["check", 1], ["check", 0]]
             cases.append({"cfg": {"nconn": nconn, "txs": [[t, bodies[t], 0] for t in sorted(bodies)]}, "ops": ops,
                           "bodies": bodies, "origin": "scripted-bulk"})
+        # blocks processed while the node is out of sync (after a block inventory / a reorg header) confirm their
+        # transactions all the same: the announcements are forgotten on every connection
+        for nconn, asked, other in ((3, 1, 2), (3, 0, 1), (2, 1, 0), (3, 2, 0)):
+            bodies = {t: [9000 + t * 10] for t in range(1, 4)}
+            ops = [["inv", asked, 1], ["inv", other, 1], ["inv", other, 2], ["advance", 1100], ["setinsync", 0],
+                   ["confirm", [1]], ["confirm", [3]], ["setinsync", 1]] + [["tracked", c] for c in range(nconn)]
+            ops += [["advance", 4100], ["check", other], ["check", asked]] + [["tracked", c] for c in range(nconn)]
+            cases.append({"cfg": {"nconn": nconn, "txs": [[t, bodies[t], 0] for t in sorted(bodies)]}, "ops": ops,
+                          "bodies": bodies, "origin": "scripted-out-of-sync-confirm"})
         n = 250 if tier == "quick" else 4000
         for i in range(n):
             r = rng.fork(14000 + i)
